@@ -99,9 +99,11 @@ fn enum_from(
 
             #[inline]
             fn from_str(src: &str) -> derive_more::core::result::Result<Self, derive_more::FromStrError> {
-                Ok(match src.to_lowercase().as_str() {
+                derive_more::core::result::Result::Ok(match src.to_lowercase().as_str() {
                     #(#cases)*
-                    _ => return Err(derive_more::FromStrError::new(#input_type_name)),
+                    _ => return derive_more::core::result::Result::Err(
+                        derive_more::FromStrError::new(#input_type_name),
+                    ),
                 })
             }
         }
